@@ -16,7 +16,7 @@ TREEID_ACTS = {"Checkout", "Switch", "StageAll"}
 
 # --------------------------------------------------------------------------- index file, read independently
 def read_index_file(path: str):
-    """Minimal reader of index versions 2/3 -> [(path bytes, mode, hex sha, stage)], or None when
+    """Minimal reader of index versions 2/3/4 -> [(path bytes, mode, hex sha, stage)], or None when
     the file is absent.  Raises ValueError on anything it does not understand (the caller then
     asks `git ls-files`)."""
     try:
@@ -27,9 +27,10 @@ def read_index_file(path: str):
     if data[:4] != b"DIRC":
         raise ValueError("no DIRC signature")
     ver, n = struct.unpack(">II", data[4:12])
-    if ver not in (2, 3):
+    if ver not in (2, 3, 4):
         raise ValueError(f"index version {ver}")
     off, out = 12, []
+    prev = b""
     for _ in range(n):
         mode = struct.unpack(">I", data[off + 24:off + 28])[0]
         sha = data[off + 40:off + 60].hex()
@@ -39,6 +40,22 @@ def read_index_file(path: str):
             if ver < 3:
                 raise ValueError("extended flag in v2")
             p += 2
+        if ver == 4:
+            # prefix compression: offset-varint N, then the NUL-terminated rest; no padding
+            c = data[p]
+            p += 1
+            strip = c & 127
+            while c & 128:
+                strip += 1
+                c = data[p]
+                p += 1
+                strip = (strip << 7) + (c & 127)
+            end = data.index(b"\0", p)
+            name = prev[:len(prev) - strip] + data[p:end]
+            prev = name
+            out.append((name, mode, sha, (flags >> 12) & 3))
+            off = end + 1
+            continue
         nlen = flags & 0xFFF
         if nlen < 0xFFF:
             name = data[p:p + nlen]
@@ -147,6 +164,7 @@ def execute(w: World, ex, steps, opts: dict):
     expects (exp) -- at the first step whose observed triple differs from it (what follows would
     only be consequences).  A status call that raises leaves an event without a report."""
     w.reset_empty()
+    w.set_config(opts.get("cfg", 0))
     w.perms = opts.get("perms", 0)
     is_dul = isinstance(ex, DulExec)
     head, wd, idx = {}, {}, {}
